@@ -2,17 +2,22 @@
 """copy a confirmed seeded change from /tmp/seed/<pid>/<k> into /verif/seeded/<pid>-<k>/ (development helper)"""
 import json, os, shutil, sys
 for arg in sys.argv[1:]:
-    pid, k = arg.split('-')
+    pid, k = arg.split('-')          # pid may carry a round suffix: C02r2-1
     src = f"/tmp/seed/{pid}/{k}"
     res = json.load(open(f"/tmp/seedres/{pid}-{k}.json"))
+    if 'r' in pid[1:]:
+        base, rnd = pid[:3], pid[3:]
+        arg_dst = f"{base}-{rnd}-{k}"
+    else:
+        arg_dst = arg
     assert res['demo_clean_exit'] == 0 and res['demo_patched_exit'] != 0 and res['baseline_ok'], res
-    dst = f"/verif/seeded/{pid}-{k}"
+    dst = f"/verif/seeded/{arg_dst}"
     os.makedirs(dst, exist_ok=True)
     for f in os.listdir(src):
         if f == 'patch.diff' or f.endswith('.py'):
             shutil.copy(os.path.join(src, f), dst)
     meta = json.load(open(os.path.join(src, 'meta.json')))
-    meta['id'] = f"{pid}-{k}"
+    meta['id'] = arg_dst
     meta['origin'] = "independent sub-agent given only the property text and a scratch worktree (nothing from /verif)"
     meta['confirmed_by_framework_author'] = dict(
         how="tools/seedtest.py --confirm in a scratch worktree of /repo HEAD: demo.py on the clean tree, demo.py with patch.diff applied, "
